@@ -364,6 +364,29 @@ func c07units(tier string) []mc.Unit {
 		r.AddNontrivial(n)
 		r.Sample(`Optimize("MJKV", table 1): J is not in the table -> an error, never a panic`)
 	}})
+	// (iv-a2) residues outside ASCII: every code point U+0080..U+07FF, and beyond that every code point up to U+FFFF whose
+	// low byte spells an upper-case letter or '*' (thorough: every code point), alone and after M. No table lists one,
+	// so each is rejected with an error whatever a byte- or table-indexed shortcut makes of its low byte.
+	us = append(us, mc.Unit{Name: "unencodable/non-ascii", Serial: true, Weight: 60, Run: func(r *mc.Recorder) {
+		var n int64
+		t := deepCopyTable(codon.GetCodonTable(1))
+		for cp := rune(0x80); cp <= 0xFFFF; cp++ {
+			if cp >= 0xD800 && cp <= 0xDFFF {
+				continue
+			}
+			low := byte(cp)
+			if !thorough && cp >= 0x800 && !(low >= 'A' && low <= 'Z') && low != '*' {
+				continue
+			}
+			l := string(cp)
+			n += c7judge(r, fmt.Sprintf("table 1 protein %q (U+%04X)", l, cp), l, t, false, false)
+			n += c7judge(r, fmt.Sprintf("table 1 protein %q (M, U+%04X)", "M"+l, cp), "M"+l, t, false, false)
+		}
+		r.Eval(n)
+		r.AddStates(n)
+		r.AddNontrivial(n)
+		r.Bound("unencodable/non-ascii", "every code point U+0080..U+07FF and every code point to U+FFFF whose low byte is A-Z or * (thorough: every code point to U+FFFF), alone and after M, table 1")
+	}})
 	// (iv-b) every letter that a default table does not encode, for all 25 tables
 	us = append(us, mc.Unit{Name: "unencodable/all-tables", Serial: true, Weight: 50, Run: func(r *mc.Recorder) {
 		var n int64
